@@ -128,6 +128,15 @@ class SeqC:
         self.arr, self.n, self.nans = arr, n, nans
 
 
+class FiltC:
+    """result of a filtered comprehension ``[elt(k) for k-th item if keep(k)]`` over a symbolic sequence of length n: the
+    sub-sequence of the elt(k) with keep(k), in order.  Not indexable; contracts of the consumers read (n, elem, keep)."""
+    __slots__ = ('n', 'elem', 'keep')
+
+    def __init__(self, n, elem, keep):
+        self.n, self.elem, self.keep = n, elem, keep
+
+
 class MapC:
     """python dict with symbolic keys: domain predicate, value array, size (insertion-ordered semantics are not needed
     by the functions under contract: order is carried by explicit uid maps)"""
